@@ -622,8 +622,28 @@ Section PoolLemmas.
     exact (add_block_after_tip _ _ _ _ _ E1 Hne).
   Qed.
 
-  (* item 6: a refused Validate leaves the blockchain and both registries alone; the pool
-     keeps its elements, and is re-ordered (shuffled in place) only when AddBlock failed *)
+  (* a refused Validate leaves the whole node - chain, registries and pool - as it was: the
+     shuffle, the removals and the reward are made on a copy of the pool *)
+  Lemma validate_refused_id n ts perm n' e :
+    validate n ts perm = (n', Refused e) -> n' = n.
+  Proof.
+    intros Hv. unfold Pool.validate in Hv. cbv zeta in Hv.
+    destruct (negb (last_block_ts (chain (n_c n)) =? 0) && (last_block_ts (chain (n_c n)) =? ts));
+      [inversion Hv; reflexivity|].
+    destruct (negb (last_block_ts (chain (n_c n)) =? 0)
+              && (last_block_ts (chain (n_c n)) + s_interval S <? ts));
+      [inversion Hv; reflexivity|].
+    destruct (update_utxos (ur (n_c n)) (last_block_txs (chain (n_c n)))
+                (last_block_ts (chain (n_c n)))) as [u0|e0];
+      [|inversion Hv; reflexivity].
+    rewrite produce_loop_spec in Hv. cbv beta iota in Hv.
+    match type of Hv with
+    | match ?X with Ok _ => _ | Err _ => _ end = _ => destruct X as [c'|e1] eqn:E1
+    end; [discriminate|].
+    inversion Hv; reflexivity.
+  Qed.
+
+  (* item 6, in the weaker shape earlier statements use *)
   Lemma validate_refused_unchanged n ts perm n' e :
     validate n ts perm = (n', Refused e) ->
     n_c n' = n_c n /\
@@ -657,9 +677,7 @@ Section PoolLemmas.
     match type of Hv with
     | match ?X with Ok _ => _ | Err _ => _ end = _ => destruct X as [c'|e1] eqn:E1
     end; [discriminate|].
-    inversion Hv; subst n' e. cbn [n_c n_pool].
-    repeat split; try reflexivity. right. split; [|reflexivity].
-    eexists. eexists. exact E1.
+    inversion Hv; subst n' e. apply Hsame; reflexivity.
   Qed.
 
   (* AddBlock re-does the check Validate has just made on its copy (apply the previous tip),
@@ -674,19 +692,15 @@ Section PoolLemmas.
     destruct (last_block (chain c)) as [lb|]; intros E; [rewrite E|]; eexists; reflexivity.
   Qed.
 
-  (* the only refusal that does not leave the whole node as it was: a tick not after the tip
-     that passed the two tick checks (a tick before the tip, or a tip dated 0 and a tick <= 0)
-     reaches AddBlock, which refuses it; the pool has been shuffled in place by then *)
+  (* the reasons for a refusal: the two tick checks, the previous tip not applying, or a tick
+     not after the tip that passed the two tick checks (a tick before the tip, or a tip dated 0
+     and a tick <= 0) and reaches AddBlock, which refuses it *)
   Lemma validate_refused_cases n ts perm n' e :
     validate n ts perm = (n', Refused e) ->
     (n' = n /\
      (e = ESameTick \/ e = EMissedTick \/
       update_utxos (ur (n_c n)) (last_block_txs (chain (n_c n))) (last_block_ts (chain (n_c n))) = Err e)) \/
-    (e = ETime /\ chain (n_c n) <> [] /\ ts <= last_block_ts (chain (n_c n)) /\
-     n' = mkNode (n_c n) (match n_pool n with
-                          | None => None
-                          | Some _ => Some (permute perm (elems (n_pool n)))
-                          end)).
+    (e = ETime /\ chain (n_c n) <> [] /\ ts <= last_block_ts (chain (n_c n)) /\ n' = n).
   Proof.
     intros Hv. unfold Pool.validate in Hv. cbv zeta in Hv.
     destruct (negb (last_block_ts (chain (n_c n)) =? 0) && (last_block_ts (chain (n_c n)) =? ts));
